@@ -109,7 +109,7 @@ CLAIMED['C16'] = dict(
          "are never rewritten to a definite verdict and their arms store solution and basis; the exact solver maps stoppedTime/stoppedIter to "
          "ABORT_TIME/ABORT_ITER and _isSolveStopped compares used amounts with the limits; every iteration/time budget handed to a solver is limit "
          "minus amount already used; the interrupt pointer is forwarded by every caller that has one, and a function that takes it reads or "
-         "forwards it (three instances fire on the unchanged tree and are reported as KNOWN-FINDING: the exact solver ignores the interrupt flag). "
+         "forwards it (the three instances that fired until the fourth session - the exact solver ignored the interrupt flag - are repaired: F34). "
          "Not a proof of resumability or of objective-limit truth.",
     technique="CFG reachability under guard-true assumptions, decision-table rules on status switches, argument-shape and parameter-forwarding rules over the clang-resolved AST",
     ref="DESIGN.md section 4, C16")
